@@ -113,6 +113,31 @@ def c06(run):
                 continue
             c = json.loads(l)
             f.write(json.dumps({"kind": "fuzz", "text": c["text"]}, ensure_ascii=False) + "\n")
+    # code -> spec: seeded random byte strings and random splices of generated documents (judged by the same rules)
+    import random
+    rnd = random.Random(run.seed)
+    docs = [json.loads(l)["text"] for l in open(cases2, encoding="utf-8")]
+    frag = ["2020-01-01", "\n", "\r\n", "    ", "\t", "  ", "1h", "8:00 - 9:00", " - ?", "(8h!)", "#tag=\"v\"", "\u00a0", "\ue0ff", "\ue0e4\ue0b8",
+            "\ue000", "\r", "9" * 25 + "h", "-", "<", ">", "am", ":", "\u65e5", "x" * 300]
+    def sym(b):
+        return chr(b) if 32 <= b < 127 or b in (9, 10, 13) else chr(0xE000 + b)
+    nrand = 4000 if run.tier == "quick" else 300000
+    with open(cases, "a", encoding="utf-8") as f:
+        for i in range(nrand):
+            k = i % 4
+            if k == 0:      # raw random bytes
+                t = "".join(sym(rnd.randrange(256)) for _ in range(rnd.randrange(1, 40)))
+            elif k == 1:    # random fragments
+                t = "".join(rnd.choice(frag) for _ in range(rnd.randrange(1, 12)))
+            elif k == 2:    # a generated document with a random byte spliced in
+                d = rnd.choice(docs)
+                p = rnd.randrange(len(d) + 1)
+                t = d[:p] + sym(rnd.randrange(256)) + d[p:]
+            else:           # two generated documents cut and glued
+                a, b = rnd.choice(docs), rnd.choice(docs)
+                t = a[:rnd.randrange(len(a) + 1)] + b[rnd.randrange(len(b) + 1):]
+            f.write(json.dumps({"kind": "fuzz", "text": t}, ensure_ascii=False) + "\n")
+        f.write(json.dumps({"kind": "fuzz", "text": "2020-01-01\n    1h " + "long " * 4000 + "\n"}, ensure_ascii=False) + "\n")
     obs = run.drive(cases, case_timeout=300, env={"KDRIVE_NCMDS": "4" if run.tier == "quick" else "0"})
     flagged = run.judge("Trace_Parse", obs, env={"KV_RULES": "C06"}, chunk=20000)
     run.assumptions = ["coverage-guided mutation is not part of this technique; the input space is the token language, "
@@ -120,7 +145,8 @@ def c06(run):
                        "absence of panics and hangs is observed by the driver"]
     return vlib.finish(run, flagged, rule_text=
         "all token sequences up to the tier's length over a 24-token alphabet of klog fragments (invalid UTF-8 symbols, NUL, "
-        "lone CR, huge numbers) plus every generated document and mutant: serial and parallel parse (2, 3, len+1 workers), "
+        "lone CR, huge numbers) plus generated documents and mutants, seeded random byte strings, random fragment sequences and random "
+        "splices of generated documents: serial and parallel parse (2, 3, len+1 workers), "
         "for accepted input 14 read-only commands through the real CLI entry point, for rejected input both error renderings")
 
 
@@ -165,7 +191,7 @@ def flatten_cli(run, obs_path, out_name="events.ndjson"):
             if rec.get("panic"):
                 st0 = case["cmds"][0]
                 ev = {"case": {"pre": pre, "cmd": st0["cmd"], "now": st0["nowv"], "cfg": st0["cfgv"], "args": st0["args"],
-                               "step": 0, "hist": [s["args"] for s in case["cmds"]], "orig": case},
+                               "step": 0, "nofile": fname not in case["files"], "hist": [s["args"] for s in case["cmds"]], "orig": case},
                       "obs": {}, "panic": rec["panic"], "site": rec.get("site", "")}
                 g.write(json.dumps(ev, ensure_ascii=False) + "\n")
                 n += 1
@@ -190,7 +216,13 @@ def flatten_cli(run, obs_path, out_name="events.ndjson"):
 def cli_family(run, rules, modes, rule_text, flagged=None):
     flagged = flagged or []
     for mode in modes:
-        cases, r = run.mc("MC_Cli", {"KV_MODE": mode}, out_name="cases-%s.ndjson" % mode)
+        if mode == "long":
+            # random walks through the command model (TLC simulation mode): histories of 12 commands
+            n = 200 if run.tier == "quick" else 3000
+            cases, r = run.mc("MC_Cli", {"KV_MODE": mode}, out_name="cases-%s.ndjson" % mode, workers=1,
+                              simulate="num=%d" % n, extra=["-depth", "13", "-seed", str(run.seed)])
+        else:
+            cases, r = run.mc("MC_Cli", {"KV_MODE": mode}, out_name="cases-%s.ndjson" % mode)
         obs = run.drive(cases, obs_name="obs-%s.ndjson" % mode)
         events = flatten_cli(run, obs, "events-%s.ndjson" % mode)
         flagged += run.judge("Trace_Cli", events, env={"KV_RULES": rules}, chunk=4000)
@@ -205,7 +237,7 @@ def c03(run):
 
 @check("C04", "Trace_Cli")
 def c04(run):
-    return cli_family(run, "C04", ["single", "pairs", "triples"], "every executed step of single commands, command pairs and triples "
+    return cli_family(run, "C04", ["single", "pairs", "triples", "long"], "random walks of 12 commands (TLC simulation), every executed step of single commands, command pairs and triples "
         "(the file written by one command is the input of the next) judged by TLC against the abstract command model KCli")
 
 
@@ -249,14 +281,17 @@ def c02(run):
 
 @check("C12", "Trace_Eval")
 def c12(run):
-    return eval_family(run, "C12", ["report"], "files whose dates are drawn from a pool around ISO-week-year, month, quarter and year boundaries "
+    return eval_family(run, "C12", ["report", "total"], "files whose dates are drawn from a pool around ISO-week-year, month, quarter and year boundaries "
         "(unsorted, duplicates, negative totals) x report --aggregate day|week|month|quarter|year with --diff and with --fill, total, today, "
         "print --with-totals")
 
 
 @check("C13", "Trace_Eval")
 def c13(run):
-    return eval_family(run, "C13", ["filter"], "a 14-record file with tags at record and entry level (dates placed relative to a reference date at "
+    pre = eval_family(run, "C13", ["shortcuts"], "", finish=False, chunk=3000)
+    return eval_family(run, "C13", ["filter"], flagged=pre, rule_text="every relative shortcut (this/last week, month, quarter, year, today, yesterday, tomorrow, "
+        "and the alias spellings) at reference dates sweeping two years (quick: boundary days plus every fifth day), on files with records "
+        "at the boundaries of the denoted period; and a 14-record file with tags at record and entry level (dates placed relative to a reference date at "
         "offsets -400..+31 days, file order ascending and descending) x every date clause with boundary dates equal to record dates, every "
         "period shape, all relative shortcuts at six reference dates (year/week-year/month/quarter boundaries, leap day), tag clauses with "
         "and without values, entry types, cross-kind combinations, --sort", chunk=4)
@@ -349,7 +384,12 @@ def c07(run):
         raise vlib.Infra("non-vacuity witness failed: storing by arrival does not violate ByIndex")
     run.extra["nonvacuity_witness"] = "StoreByArrival=TRUE violates ByIndex at N=3"
     # (2) the data flow: all short byte strings x all worker counts at spec level, replayed into the real parsers
-    cases, r = run.mc("MC_Chunks", {})
+    cases, r = run.mc("MC_Chunks", {"KV_MODE": "bytes"})
+    casesL, rL = run.mc("MC_Chunks", {"KV_MODE": "lines"}, out_name="cases-lines.ndjson")
+    casesC, rC = run.mc("MC_Chunks", {"KV_MODE": "crlf"}, out_name="cases-crlf.ndjson")
+    with open(cases, "a", encoding="utf-8") as f:
+        f.write(open(casesL, encoding="utf-8").read())
+        f.write(open(casesC, encoding="utf-8").read())
     # (3) generated documents and mutants with several worker counts
     cases2, r2 = run.mc("MC_Parse", {"KV_WANT": "all"}, out_name="cases2.ndjson")
     sched = []
@@ -359,7 +399,8 @@ def c07(run):
             if run.tier == "quick" and (i + run.seed) % 3 != 0:
                 continue
             L = len(c["text"].encode("utf-8"))
-            c["workers"] = sorted(set([2, 3, 5, 8, 13, L + 1] + [w for w in (L // 2, L - 1, L) if w > 0]))
+            # every worker count from 1 to beyond the text length (documents up to 400 bytes), else a spread
+            c["workers"] = list(range(1, L + 3)) if L <= 400 else sorted(set([2, 3, 5, 8, 13, L + 1, L // 2, L - 1, L]))
             f.write(json.dumps(c, ensure_ascii=False) + "\n")
             if (i + run.seed) % (40 if run.tier == "quick" else 8) == 0:
                 for nn in ((2, 3, 4) if run.tier == "quick" else (2, 3, 4, 5)):
@@ -377,6 +418,7 @@ def c07(run):
                        "natural-schedule traces are validated against the projection of KParallel on its send/receive steps"]
     return vlib.finish(run, flagged, rule_text="(1) PlusCal model KParallel of workers/closer/collector model-checked for N=4,5 (thorough 6) incl. "
         "termination under fairness, with a bug witness; (2) KChunks: split/batch/merge on all byte strings up to length 6 (thorough 8) over "
-        "{text, blank, LF, CR, 2-byte lead, continuation, invalid} x every worker count, spec-level equivalence with serial segmentation, each "
+        "{text, blank, LF, CR, 2-byte lead, continuation, invalid} and all texts of up to 5 (thorough 6) whole lines (LF/CRLF, blank, "
+        "whitespace-only, unterminated) x every worker count, spec-level equivalence with serial segmentation, each "
         "text replayed into the real parsers; (3) generated documents and mutants x worker counts {2,3,5,8,13,len/2,len-1,len,len+1}; "
         "(4) every arrival order of the batch results forced through hook H2 for N<=4 (thorough 6) and natural schedules under GOMAXPROCS 1/4/16")
